@@ -33,4 +33,12 @@ func rocksStoreCmd(out *cq.Out, seed uint64, tier string) {
 }
 
 // dispatch is extended by the other node commands.
-func dispatch(cmd string, out *cq.Out, seed uint64, tier, arg string) bool { return false }
+func dispatch(cmd string, out *cq.Out, seed uint64, tier, arg string) bool {
+	switch cmd {
+	case "raftlog":
+		raftlogCmd(out, seed, tier)
+	default:
+		return dispatch2(cmd, out, seed, tier, arg)
+	}
+	return true
+}
